@@ -64,6 +64,9 @@ def margin_negation(goal, m):
         return tm.or_(tm.ge(d, M), tm.le(d, tm.neg(M)))
     if op in ("le0", "lt0"):
         return tm.ge(goal.args[0], M)
+    if op == "not" and goal.args[0].op == "and":
+        # goal = d1 or d2 or ... (an implication): every disjunct is violated, each with the margin
+        return tm.and_(*[margin_negation(tm.not_(l), m) for l in goal.args[0].args])
     return tm.not_(goal)
 
 
@@ -324,7 +327,7 @@ def known_match(known, prop, case_name, goal_name):
     for k in known:
         if k.get("status", "open") != "open":
             continue
-        if k["property"] == prop and fnmatch.fnmatch(case_name, k["case"]) and fnmatch.fnmatch(goal_name, k["goal"]):
+        if k["property"] == prop and fnmatch.fnmatch(case_name, k["case"]) and k["goal"] in goal_name:
             return k
     return None
 
